@@ -22,7 +22,8 @@ type Frame struct {
 	defers []deferred
 	call   ssa.Value // instruction in the caller receiving the result (nil for entry / defers)
 	iter   map[*ssa.BasicBlock]int
-	// for go1.22 per-iteration etc nothing special
+	// set on frames pushed by the panic unwinder for a deferred call
+	panicDefer bool
 }
 
 func (f *Frame) clone() *Frame {
@@ -41,6 +42,26 @@ func (f *Frame) clone() *Frame {
 
 var stateCounter = 0
 
+// bufInput describes one vBytes input of a path.
+type bufInput struct {
+	key   string // name#k
+	arr   *Term
+	ln    *Term
+	max   int
+	slack int
+}
+
+type obsEntry struct {
+	label string
+	val   *Term
+}
+
+type panicInfo struct {
+	val  Value
+	what string
+	pos  token.Pos
+}
+
 type State struct {
 	id      int
 	heap    map[ObjID]*Object
@@ -51,12 +72,22 @@ type State struct {
 	done    bool
 	result  Value
 	depth   int
+
+	names   map[string]int    // per-path occurrence counters of nondet names
+	inputs  []*Term           // scalar nondet variables created on this path
+	keys    map[int]string    // term id -> vector key
+	bufs    []bufInput        // byte-buffer inputs
+	choices map[string]int    // vChoice decisions taken on this path
+	obs     []obsEntry        // vObserve log
+	panicking *panicInfo      // non-nil while unwinding a Go panic
+	clock   *Term             // model of time.Now (seconds), non-decreasing
 }
 
 func newState() *State {
 	stateCounter++
 	n := ObjID(1)
-	return &State{id: stateCounter, heap: map[ObjID]*Object{}, owner: map[ObjID]int{}, nextObj: &n}
+	return &State{id: stateCounter, heap: map[ObjID]*Object{}, owner: map[ObjID]int{}, nextObj: &n,
+		names: map[string]int{}, keys: map[int]string{}, choices: map[string]int{}}
 }
 
 func (s *State) fork() *State {
@@ -72,6 +103,23 @@ func (s *State) fork() *State {
 		c.frames = append(c.frames, f.clone())
 	}
 	c.pc = append([]*Term(nil), s.pc...)
+	c.names = make(map[string]int, len(s.names))
+	for k, v := range s.names {
+		c.names[k] = v
+	}
+	c.keys = make(map[int]string, len(s.keys))
+	for k, v := range s.keys {
+		c.keys[k] = v
+	}
+	c.choices = make(map[string]int, len(s.choices))
+	for k, v := range s.choices {
+		c.choices[k] = v
+	}
+	c.inputs = append([]*Term(nil), s.inputs...)
+	c.bufs = append([]bufInput(nil), s.bufs...)
+	c.obs = append([]obsEntry(nil), s.obs...)
+	c.panicking = s.panicking
+	c.clock = s.clock
 	return c
 }
 
@@ -104,13 +152,39 @@ func (s *State) wobj(id ObjID) *Object {
 
 func (s *State) top() *Frame { return s.frames[len(s.frames)-1] }
 
+// nextKey returns the vector key name#k for the next occurrence of a nondet name on this path.
+func (s *State) nextKey(name string) string {
+	k := s.names[name]
+	s.names[name] = k + 1
+	return fmt.Sprintf("%s#%d", name, k)
+}
+
 type unsupported struct{ why string }
 
+// Vector is a concrete assignment of a harness's nondeterministic inputs; it is what the native
+// replay reads.
+type Vector struct {
+	Harness string            `json:"harness"`
+	Entry   string            `json:"entry"`
+	Vars    map[string]string `json:"vars"`
+	Bytes   map[string]VecBuf `json:"bytes"`
+	Choices map[string]int    `json:"choices"`
+	Params  map[string]int    `json:"params"`
+}
+
+type VecBuf struct {
+	Len int    `json:"len"`
+	Cap int    `json:"cap"`
+	Hex string `json:"hex"`
+}
+
 type Violation struct {
-	What  string
-	Pos   token.Position
-	Model map[string]string
-	Kind  string
+	What   string  `json:"what"`
+	Pos    string  `json:"pos"`
+	Kind   string  `json:"kind"` // panic | assert | unwind | unknown
+	Vector *Vector `json:"vector,omitempty"`
+	Known  string  `json:"known,omitempty"` // id of the matching known finding
+	Obs    []string `json:"obs,omitempty"`
 }
 
 func newObjFor(t types.Type) *Object {
